@@ -94,6 +94,11 @@ def units():
             Unit("operators_on_uniform_state", "tdgl.finite_volume.operators:MeshOperators.get_supercurrent / build_* / set_link_exponents", run_operators, props=["C17"], timeout=600)]
 
 
+def replay_scope(unit, obl):
+    """the native replay of this property searches per unit, not per obligation: run it once per unit"""
+    return "unit"
+
+
 def replay(unit, obl):
     return bounded_native(0, n=3)
 
